@@ -68,7 +68,7 @@ func isFieldStore(in ssa.Instruction, owner string, names ...string) (string, bo
 }
 
 func runC04(c *core.Ctx) {
-	c.Explanation = "Structural clauses of the lint verdict, decided on SSA of cmd/falco and linter: (R-indicators) runLint returns nil only after the zero-edge of a test of every failure indicator that Run can leave populated while returning a nil error (Errors; ParseErrors when Run swallows the parser error under -json); (R-NI) no store to the error/warning/info counters, no append to Linter.Errors, no call on the chain Run→run→printLinterError and no severity argument is control- or data-dependent (post-dominator control dependence, phi-implicit flows) on -json / -v / -vv / Runner.level; (R-severity) each counter is incremented exactly under its own severity case of the severity parameter, the severity passed is the override lookup falling back to the diagnostic's own, and NewRunner maps the names ERROR/WARNING/INFO/IGNORE to the constants of the same name; (R-exit) in main, an ErrExit from runLint reaches os.Exit(non-zero) on every path (phi-constant path walk). Decides the control structure of the verdict, not the printed numbers. (R-recorded) the only error of r.run that Run drops under -json is ErrParser (walk assuming the error is neither nil nor ErrParser), every return of ErrParser in cmd/falco is preceded on every -json path by a store into Runner.parseErrors — the `.(*parser.ParseError)` assertions on the way hold because the asserted value is errors.Cause of a parser error (C01 err.located) or Linter.FatalError.Error, which the linter fills only with errors.Cause(parser error); (R-ignorecover) every statement of a statement list is linted through lintStatement (ignore setup/teardown), so ignored diagnostics are not counted."
+	c.Explanation = "Structural clauses of the lint verdict, decided on SSA of cmd/falco and linter: (R-indicators) runLint returns nil only after the zero-edge of a test of every failure indicator that Run can leave populated while returning a nil error (Errors; ParseErrors when Run swallows the parser error under -json); (R-NI) no store to the error/warning/info counters, no append to Linter.Errors, no call on the chain Run→run→printLinterError and no severity argument is control- or data-dependent (post-dominator control dependence, phi-implicit flows) on -json / -v / -vv / Runner.level; (R-severity) each counter is incremented exactly under its own severity case of the severity parameter, the severity passed is the override lookup falling back to the diagnostic's own, and NewRunner maps the names ERROR/WARNING/INFO/IGNORE to the constants of the same name; (R-exit) in main, an ErrExit from runLint reaches os.Exit(non-zero) on every path (phi-constant path walk). Decides the control structure of the verdict, not the printed numbers. (R-recorded) the only error of r.run that Run drops under -json is ErrParser (walk assuming the error is neither nil nor ErrParser), every return of ErrParser in cmd/falco is preceded on every -json path by a store into Runner.parseErrors — the `.(*parser.ParseError)` assertions on the way hold because the asserted value is errors.Cause of a parser error (C01 err.located) or Linter.FatalError.Error, which the linter fills only with errors.Cause(parser error); (R-ignorecover) every statement of a statement list is linted through lintStatement (ignore setup/teardown), so ignored diagnostics are not counted. (verdict.lasttoken) a parser loop guarded by PeekTokenIs advances before its body reads the current token, so the last token of a file is parsed; (verdict.overrides) LinterConfig.Rules is given a fresh map only behind a nil test."
 	c.NotCovered = []string{"that the printed numbers equal the counted numbers", ".falco.yml parsing", "what the linter itself reports (C05/C11/C12)"}
 	c.Assumptions = []string{"the exit status is produced only by os.Exit calls in cmd/falco.main"}
 	prog := c.Prog
